@@ -615,6 +615,7 @@ fn templates() -> Vec<(&'static str, Cfg, Vec<Ev>)> {
             Ev::Propose(2, 21, true),                               // C: [2:21]
             Ev::Inject(2, 1, M::Ae(2, 2, 0, 0, 0, vec![(2, 21)]), true, true), // B truncates -> [2:21]
             Ev::Inject(2, 0, M::Ae(2, 2, 0, 0, 0, vec![(2, 21)]), true, true), // A truncates -> [2:21]
+            Ev::Inject(2, 4, M::Ae(2, 2, 0, 0, 0, vec![(2, 21)]), true, true), // E appends -> [2:21]
             Ev::Timeout(0, true),                                   // A term 3
             Ev::Inject(0, 3, M::Rv(3, 0, 1, 2), true, true),
             Ev::Inject(0, 4, M::Rv(3, 0, 1, 2), true, true),
@@ -624,13 +625,12 @@ fn templates() -> Vec<(&'static str, Cfg, Vec<Ev>)> {
             Ev::Inject(1, 0, M::Aer(1, true, 1, 2), true, true),    // STALE ack from term 1
             Ev::Inject(0, 3, M::Ae(3, 0, 1, 2, 0, vec![(3, 31)]), true, true), // D lacks idx1 -> reject
             Ev::Inject(0, 3, M::Ae(3, 0, 0, 0, 0, vec![(2, 21), (3, 31)]), true, true),
-            Ev::Inject(3, 0, M::Aer(3, true, 3, 2), true, true),    // real ack from D: with stale B that is 3/5
-            Ev::Timeout(4, true),
-            Ev::Timeout(4, true),
-            Ev::Timeout(4, true),
-            Ev::Timeout(4, true),                                   // E term 4
-            Ev::Inject(4, 1, M::Rv(4, 4, 0, 0), true, true),
-            Ev::Inject(4, 2, M::Rv(4, 4, 0, 0), true, true),
+            Ev::Inject(3, 0, M::Aer(3, true, 3, 2), true, true),    // real ack from D: with the stale B ack that is 3/5
+            Ev::Timeout(4, true),                                   // E term 4, log [2:21]
+            Ev::Inject(4, 1, M::Rv(4, 4, 1, 2), true, true),
+            Ev::Inject(4, 2, M::Rv(4, 4, 1, 2), true, true),
+            Ev::Inject(1, 4, M::Rvr(4, true, 1), true, true),
+            Ev::Inject(2, 4, M::Rvr(4, true, 2), true, true),       // E leader of term 4 without entry 2
         ],
     ));
     v
